@@ -254,7 +254,8 @@ fn join_line(
 pub fn stroke_to_path(path: &Path, style: &StrokeStyle) -> Path {
     let mut stroked_path = PathBuilder::new();
 
-    if style.width <= 0. {
+    // this also catches a NaN width
+    if !(style.width > 0.) {
         return stroked_path.finish();
     }
 
